@@ -64,6 +64,7 @@ fn oracle(s: &ProgScene<X>, t: &Trace) -> Vec<Violation> {
             .collect();
         // always: the k-th delivery is not before t0 + k*P; one-shots at most once
         for (k, (_, time)) in fires.iter().enumerate() {
+            crate::check::oblige("not-before-period");
             let earliest = t0 + (k as u64 + 1) * p;
             if *time < earliest {
                 out.push(Violation {
@@ -82,6 +83,7 @@ fn oracle(s: &ProgScene<X>, t: &Trace) -> Vec<Violation> {
         }
         // never after termination
         if let Some((tidx, _)) = term {
+            crate::check::oblige("no-fire-after-termination");
             if let Some((idx, time)) = fires.iter().find(|(idx, _)| *idx > tidx) {
                 out.push(Violation {
                     clause: "no-fire-after-termination",
@@ -116,6 +118,9 @@ fn oracle(s: &ProgScene<X>, t: &Trace) -> Vec<Violation> {
                 }
                 k += 1;
             }
+            if !expected.is_empty() {
+                crate::check::oblige("exact-period");
+            }
             let got: Vec<u64> = fires.iter().map(|(_, t)| *t).collect();
             let missing: Vec<&u64> = expected.iter().filter(|e| !got.contains(e)).collect();
             let extra: Vec<&u64> = got.iter().filter(|g| !expected.contains(g) && !optional.contains(g)).collect();
@@ -137,6 +142,7 @@ fn oracle(s: &ProgScene<X>, t: &Trace) -> Vec<Violation> {
                 detail: "the actor did not terminate although it was stopped / dropped / failed".into(),
             }),
             Some(_) => {
+                crate::check::oblige("no-timer-task-leaked");
                 let live: Vec<_> = t.res.live.iter().filter(|(_, k)| matches!(k, TaskKind::Spawned(_))).collect();
                 if !live.is_empty() {
                     out.push(Violation {
@@ -322,6 +328,7 @@ pub fn property() -> Property {
     Property {
         id: "C10",
         cases,
+        clauses: &["not-before-period", "no-fire-after-termination", "exact-period", "no-timer-task-leaked"],
         assumptions: &[
             "exact clauses use discrete-event time (the clock advances only when nothing is runnable) and instant handlers; the racy runs let up to two deadlines fire although tasks are runnable and check the one-sided clauses only",
             "a deadline that coincides with the instant of the terminating action may or may not be delivered",
